@@ -655,15 +655,24 @@ Proof.
 Qed.
 
 (* ------------------------------------------------------------------ orientation *)
-(* both orientation rows (setter and constructor): None and every scipy Rotation are stored (None as one unit
-   quaternion, a single rotation as one, a stack of n as n), every other value raises the library's input error *)
+Lemma orientation_rejects_empty_lemma : orientation_rejects_empty = true.
+Proof. reflexivity. Qed.
+
+(* both orientation rows (setter and constructor): None and every scipy Rotation with at least one rotation are
+   stored (None as one unit quaternion, a single rotation as one, a stack of n >= 1 as n); an EMPTY stack and every
+   other value raise the library's input error *)
 Lemma orientation_assign_lemma : forall a r inp, In a ["orientation"; "orientation@init"] ->
-  find_setter "BaseGeo" a = Some r ->
+  find_setter "BaseGeo" a = Some r -> wf_oinput inp ->
   assign_orient r inp = if odoc_accepts inp
                         then OStored (match inp with ORot false n => n | _ => 1 end) else ORejected.
 Proof.
-  intros a r inp Hin Hf. simpl in Hin.
-  destruct Hin as [<-|[<-|[]]]; vm_compute in Hf; inversion Hf; subst r; destruct inp as [|[|] n|]; reflexivity.
+  intros a r inp Hin Hf Hwf. simpl in Hin.
+  destruct Hin as [<-|[<-|[]]]; vm_compute in Hf; inversion Hf; subst r; clear Hf;
+    (destruct inp as [|[|] n|]; try reflexivity);
+    unfold assign_orient, odoc_accepts, check_format_input_orientation; cbn [s_val s_attr orb]; eval_streq; cbn [andb];
+    rewrite orientation_rejects_empty_lemma; cbn [andb]; simpl in Hwf;
+    (destruct (n =? 0) eqn:E; [replace (1 <=? n) with false by lia; reflexivity|
+                               replace (1 <=? n) with true by lia; try rewrite E; reflexivity]).
 Qed.
 
 (* ------------------------------------------------------------------ field_func *)
